@@ -104,3 +104,18 @@ Theorem c17_good_credentials_colon_user_refuted :
     channel b64decode sha1hex user stored (ex_block cookie) [MTrue] = (Refuse401, []).
 Proof. exists ex_b64, ex_sha. exact colon_user_refuted. Qed.
 Print Assumptions c17_good_credentials_colon_user_refuted.
+
+(* the handler consulted last claims every request (generated from the AST of
+   medusa default_handler.match), so a dispatched request always meets an
+   authentication wrapper and is never answered by the bare 404 *)
+Theorem c17_catch_all_last : catch_all_last = true.
+Proof. reflexivity. Qed.
+Print Assumptions c17_catch_all_last.
+
+Theorem c17_never_404_behind_catch_all :
+  forall (b64decode : str -> option str) (sha1hex : str -> str) (user stored : str) text r ms,
+    parse_block text = PReq r ->
+    nth (length installed_handlers - 1) ms MFalse = MTrue ->
+    fst (channel b64decode sha1hex user stored text ms) <> Error404.
+Proof. exact never_404_behind_catch_all. Qed.
+Print Assumptions c17_never_404_behind_catch_all.
